@@ -798,7 +798,10 @@ fn string_ranges(cx: &mut Ctx, g: &Grammar) {
             let t = sm::tsx(&m.block);
             let p_loc = t.find("letlocation=self.get_pos();");
             let p_next = t.find("self.next_char()");
-            let calls_ok = t.matches("parse_fstring_expr(&expression,location)").count() == 2;
+            // every call of the expression parser (one per branch, or one hoisted before the branch) gets the field's
+            // text and the captured start
+            let n_calls = t.matches("parse_fstring_expr(").count();
+            let calls_ok = n_calls >= 1 && n_calls <= 2 && t.matches("parse_fstring_expr(&expression,location)").count() == n_calls;
             match (p_loc, p_next) {
                 (Some(a), Some(b)) if a < b && calls_ok => cx.ok("C02.R6", "field start captured by get_pos() before the first next_char(); both parse_fstring_expr calls receive (&expression, location)"),
                 _ => cx.fail("C02.R6", "C02.R6/field-start", &s.loc(m), "the field's start is not captured with get_pos() before the first consumed character, or parse_fstring_expr is not called with (&expression, location)"),
